@@ -14,6 +14,8 @@ package main
 
 import (
 	"fmt"
+	"github.com/BlackVectorOps/semantic_firewall/v3/internal/verifh/lib/xpkg"
+	"github.com/BlackVectorOps/semantic_firewall/v3/pkg/diff"
 	"math/rand"
 	"os"
 	"path/filepath"
@@ -167,7 +169,7 @@ func batch(res *evid.Result, bi int, root string) {
 		pkg := v.File.Pkg
 		type pending struct {
 			name, key, what string
-			w                map[string]any
+			w               map[string]any
 		}
 		var defaultCollisions []pending
 		for bidx, fn := range base.Funcs {
@@ -317,6 +319,53 @@ func main() {
 		}(b)
 	}
 	wg.Wait()
+	// callee / global swaps between packages that share their package name (lib/xpkg): the
+	// function's own text is unchanged, only the import path differs
+	for _, sc := range xpkg.Build(filepath.Join(root, "xpkg"), evid.Rand(303)) {
+		if sc.Err != "" {
+			res.Inconcl(1)
+			res.Logf("C03 xpkg %s: %s\n", sc.Kind, sc.Err)
+			continue
+		}
+		if !sc.Separated {
+			res.Count("pairs_not_separated", 1)
+			continue
+		}
+		res.Count("pairs_separated", 1)
+		res.Count("separated:"+sc.Kind, 1)
+		res.Distinct(sc.Kind + "|xpkg")
+		po, err1 := fp.Load(sc.OldFile)
+		pn, err2 := fp.Load(sc.NewFile)
+		if err1 != nil || err2 != nil {
+			res.Inconcl(1)
+			continue
+		}
+		for _, pol := range []string{"keepall", "default"} {
+			ro, err1 := fp.Fingerprint(po, pol)
+			rn, err2 := fp.Fingerprint(pn, pol)
+			if err1 != nil || err2 != nil {
+				res.Inconcl(1)
+				continue
+			}
+			res.Eval(1)
+			find := func(rs []diff.FingerprintResult) string {
+				for _, r := range rs {
+					if strings.HasSuffix(r.FunctionName, "."+sc.Func) || r.FunctionName == sc.Func {
+						return r.Fingerprint
+					}
+				}
+				return ""
+			}
+			fo, fn := find(ro), find(rn)
+			if fo == "" || fn == "" {
+				res.Inconcl(1)
+				continue
+			}
+			if fo == fn {
+				res.Violate("collision/"+pol+"/"+sc.Kind, fmt.Sprintf("app.%s with import %q and with import %q (same package name and member) behave differently (%s) but share fingerprint %s… under the %s policy", sc.Func, sc.OldImport, sc.NewImport, sc.Witness, fo[:12], pol), map[string]any{"scenario": sc, "policy": pol})
+			}
+		}
+	}
 	if res.GetCount("pairs_separated") < 100 {
 		res.Broken = fmt.Sprintf("only %d pairs were separated by execution", res.GetCount("pairs_separated"))
 	}
